@@ -90,6 +90,9 @@ META = {
         "parse_directive_block) hands (a slice of) that block on with an offset that still contains its own offset, plus the number of "
         "lines cut off the head of the block. R2 also checks inside nested_render_text that what markdown-it parses is the text "
         "parameter with its head intact (a trailing line break may be added). "
+        "Shapes also understood: `start, stop, _ = slice(a, b).indices(n)` (read as start = <call>[0]); the cut in the definition of the "
+        "lines local the text is joined from (the normalising length must then be that of the WHOLE file's lines); the rST set-aside "
+        "bracket in a @contextmanager; a copy of the rest of a block whose head is popped before it is handed on (must be counted). "
         "R8: a value returned by a package function that was given a line (L1/P kind) is not stored in a mapping that outlives the call "
         "(module global, attribute, document/env) under a key that omits that line - a replay would carry the first occurrence's lines."
     ),
@@ -221,6 +224,11 @@ def _defs(fi: FunctionInfo, name: str) -> list[tuple[ast.stmt, ast.expr | None, 
                         for te, ve in zip(t.elts, n.value.elts):  # a, b = x, y
                             if isinstance(te, ast.Name) and te.id == name:
                                 out.append((n, ve, "assign"))
+                    elif isinstance(n.value, ast.Call) and isinstance(n.value.func, ast.Attribute) and n.value.func.attr == "indices" and not any(isinstance(e, ast.Starred) for e in t.elts):
+                        for i_, te in enumerate(t.elts):  # start, stop, step = slice(a, b).indices(n)
+                            if isinstance(te, ast.Name) and te.id == name:
+                                sub_ = ast.copy_location(ast.Subscript(value=n.value, slice=ast.copy_location(ast.Constant(value=i_), n.value), ctx=ast.Load()), n.value)
+                                out.append((n, sub_, "assign"))
                     else:
                         out.append((n, None, "other"))
         elif isinstance(n, ast.AnnAssign) and isinstance(n.target, ast.Name) and n.target.id == name and n.value is not None:
@@ -1187,7 +1195,10 @@ def r2_line_kinds(corpus: Corpus, rep: Report, tier: str):
                     alts = [v for _s, v, how in _defs(fi, ba.id) if how == "assign" and v is not None] or [ba]
                 cuts_ = []
                 related = True
+                local_copy = ba.id if isinstance(ba, ast.Name) and ba.id != bparam else None
                 for a_ in alts:
+                    if isinstance(a_, ast.Call) and dotted(a_.func) in ("list", "tuple") and len(a_.args) == 1:
+                        a_ = a_.args[0]  # list(lines[k:]): a copy
                     if isinstance(a_, ast.Name) and a_.id == bparam:
                         continue
                     if isinstance(a_, ast.Subscript) and isinstance(a_.value, ast.Name) and a_.value.id == bparam and isinstance(a_.slice, ast.Slice):
@@ -1206,6 +1217,18 @@ def r2_line_kinds(corpus: Corpus, rep: Report, tier: str):
                             if h_ == "assign" and v_ is not None and len(_defs(fi, nm_)) == 1:
                                 onames |= _names(v_)
                 missing_cut = [c_ for c_ in cuts_ if not (_names(c_) <= onames) or (isinstance(c_, ast.Constant) and unparse(c_) not in unparse(oa))]
+                # lines taken off the head of a local copy afterwards (pop(0) / del [0] / [1:]) must be counted by something the offset uses
+                uncounted = None
+                if local_copy is not None:
+                    for st_, kind_, _amt in _head_edits(fi, local_copy):
+                        if kind_ in ("drop", "unknown"):
+                            lk_, p_ = _stmt_list_of(st_)
+                            sibs_ = getattr(p_, lk_[1], [])
+                            if not any(isinstance(x_, ast.AugAssign) and isinstance(x_.target, ast.Name) and x_.target.id in onames for x_ in sibs_):
+                                uncounted = st_
+                if uncounted is not None:
+                    rep.violation(R2, k, site, f"`{short(uncounted, 50)}` takes lines off the head of `{local_copy}` (a copy of part of `{bparam}`) before it is handed on, but nothing the offset `{short(oa, 30)}` uses is advanced with it: the skipped lines are not counted and everything parsed from `{local_copy}` is located too low")
+                    continue
                 if oparam not in onames:
                     rep.violation(R2, k, site, f"`{short(n, 70)}` hands on (part of) the block `{bparam}` with the offset `{short(oa, 30)}`, which no longer contains `{oparam}` - the content offset accumulated so far is dropped, so everything parsed from that part is located too low by `{oparam}` lines")
                 elif missing_cut:
@@ -2439,7 +2462,7 @@ def _names(e: ast.AST | None) -> set[str]:
     return {x.id for x in ast.walk(e) if isinstance(x, ast.Name)} if e is not None else set()
 
 
-def _head_cuts(value: ast.expr, T: str, K: "Kinds", fi: FunctionInfo) -> list[tuple[str, ast.expr]]:
+def _head_cuts(value: ast.expr, T: str, K: "Kinds", fi: FunctionInfo, _depth: int = 0) -> list[tuple[str, ast.expr]]:
     """Head slices of text/lines ``T`` inside ``value``: [(kind 'lines'|'chars', lower bound)]."""
     out = []
     for n in ast.walk(value):
@@ -2463,6 +2486,13 @@ def _head_cuts(value: ast.expr, T: str, K: "Kinds", fi: FunctionInfo) -> list[tu
                     for v in ds
                 ):
                     out.append(("lines", n.slice.lower))
+    if not out and _depth < 1:
+        # T = "\n".join(L)  with  L = <lines of T>[a:b]
+        for nm in sorted(_names(value) - {T}):
+            if _owner_of_param(fi, nm) is None:
+                ds = [v for _s, v, how in _defs(fi, nm) if how == "assign" and v is not None]
+                if len(ds) == 1 and len(_defs(fi, nm)) == 1 and T in _names(ds[0]):
+                    out += [c for c in _head_cuts(ds[0], T, K, fi, _depth + 1) if c[0] == "lines"]
     return out
 
 
@@ -2499,6 +2529,8 @@ def r7_start_accumulator(corpus: Corpus, rep: Report, tier: str):
                         nm_ = [e.id if isinstance(e, ast.Name) else None for e in n_.targets[0].elts]
                         if V not in nm_ and T not in nm_:
                             continue
+                        if T not in nm_ and isinstance(n_.value, ast.Call) and isinstance(n_.value.func, ast.Attribute) and n_.value.func.attr == "indices":
+                            continue  # start, stop, _ = slice(...).indices(n): read as V = <call>[0] by _defs
                         done_ = False
                         if V in nm_ and T in nm_ and isinstance(n_.value, ast.Call) and depth < 2:
                             hs = [t for t in get_callgraph(corpus).resolve_call(n_.value, fi) if isinstance(t, FunctionInfo) and not t.is_lambda]
@@ -2603,9 +2635,13 @@ def r7_start_accumulator(corpus: Corpus, rep: Report, tier: str):
                                             ic = c_.value
                                             sl_ = ic.func.value
                                             good_len = bool(ic.args) and isinstance(ic.args[0], ast.Call) and dotted(ic.args[0].func) == "len" and ic.args[0].args and K.is_lines(ic.args[0].args[0], fi)
+                                            if good_len and isinstance(ic.args[0].args[0], ast.Name):
+                                                # ... of the whole file: the list measured is not one that was already sliced
+                                                if any(isinstance(x_, ast.Subscript) and isinstance(x_.slice, ast.Slice) for _s2, v2_, _h2 in _defs(fi, ic.args[0].args[0].id) if v2_ is not None for x_ in ast.walk(v2_)):
+                                                    good_len = False
                                             good_slice = isinstance(sl_, ast.Call) and dotted(sl_.func) == "slice" and sl_.args and (_names(sl_.args[0]) & ln) and len(sl_.args) >= 2
                                             idx0 = isinstance(c_.slice, ast.Constant) and c_.slice.value == 0
-                                            norm = ("ok", d_) if (good_len and good_slice and idx0) else ("bad", d_, "the start index is `slice(start, stop).indices(number of lines of the file)[0]`" + ("" if idx0 else "; element [0], not " + unparse(c_.slice)) + ("" if good_len else "; the length must be the number of LINES of the file") + ("" if good_slice else "; the slice must be built from the start-line option (and the end)"))
+                                            norm = ("ok", d_) if (good_len and good_slice and idx0) else ("bad", d_, "the start index is `slice(start, stop).indices(number of lines of the file)[0]`" + ("" if idx0 else "; element [0], not " + unparse(c_.slice)) + ("" if good_len else "; the length must be the number of LINES of the WHOLE file (not of text / an already sliced list)") + ("" if good_slice else "; the slice must be built from the start-line option (and the end)"))
                                     # if V < 0: V = max(len(lines) + V, 0)
                                     gs = [unparse(t_) for t_, pol in get_cfg(fi).guards(d_) if pol] if isinstance(d_, ast.stmt) else []
                                     if norm is None and any(g_.replace(" ", "") in (f"{V}<0", *(f"{n_}<0" for n_ in ln)) for g_ in gs):
@@ -3080,14 +3116,27 @@ def r11_directive_boundaries(corpus: Corpus, rep: Report, tier: str):
                         out_.append(m)
                 return out_
 
+            host = fi
             tr_ = next((a for a in ancestors(call) if isinstance(a, ast.Try) and a.finalbody and any(call in ast.walk(s_) for s_ in a.body)), None)
+            if tr_ is None:
+                # the bracket may live in a @contextmanager used as `with self.cm():` around the parse (its `yield` is the parse)
+                for a in ancestors(call):
+                    if isinstance(a, ast.With):
+                        for item in a.items:
+                            if isinstance(item.context_expr, ast.Call):
+                                for t_ in g.resolve_call(item.context_expr, fi):
+                                    if isinstance(t_, FunctionInfo) and any(d_.split(".")[-1] == "contextmanager" for d_ in t_.decorators()):
+                                        ys = [y for y in t_.local_nodes() if isinstance(y, ast.Yield)]
+                                        trs = [x for x in t_.local_nodes() if isinstance(x, ast.Try) and x.finalbody and any(y in ast.walk(s_) for s_ in x.body for y in ys)]
+                                        if len(ys) == 1 and len(trs) == 1 and tr_ is None:
+                                            host, tr_ = t_, trs[0]
             if tr_ is None:
                 rep.violation(R11, k, site, f"`{short(call, 50)}` runs docutils' rST state machine on the shared reporter outside a try/finally: the reporter.get_source_and_line it installs stays behind, so later warnings of the Markdown document are mapped through the finished block's input lines (wrong file and line after an rST `.. include::`)")
                 continue
-            cfg = get_cfg(fi)
+            cfg = get_cfg(host)
             # 1. set aside before the parse: docutils installs its own line function only when the reporter has none, and only
             #    that one knows the lines an rST `.. include::` splices in
-            pre = [m for s_ in fi.node.body for m in removals(s_) if m.lineno < tr_.lineno and cfg.dominates(cfg.stmt_of(m), tr_)]
+            pre = [m for s_ in host.node.body for m in removals(s_) if m.lineno < tr_.lineno and cfg.dominates(cfg.stmt_of(m), tr_)]
             saved = None
             for m in pre:
                 p_ = parent(m)
@@ -3573,6 +3622,19 @@ def mutants(corpus: Corpus):
         add("c04-block-quote-rest-offset-not-advanced", R2, mk, rec.args[1], unparse(rec.args[1].left), "carries the content offset")
     else:
         out.append(("c04-block-quote-rest-loses-content-offset", "recursive block_quote call with offset + index not found"))
+    # blank lines dropped from a copy of the rest instead of advancing the index the offset uses
+    if rec is not None and isinstance(rec.args[0], ast.Subscript):
+        ifst = next((a_ for a_ in ancestors(rec) if isinstance(a_, ast.If)), None)
+        if ifst is not None:
+            ind_ = " " * ifst.col_offset
+            add(
+                "c04-block-quote-rest-blank-lines-popped-uncounted",
+                R2,
+                mk,
+                ifst,
+                f"remaining = list({unparse(rec.args[0])})\n{ind_}while remaining and not remaining[0].strip():\n{ind_}    remaining.pop(0)\n{ind_}if remaining:\n{ind_}    elements += self.block_quote(remaining, {unparse(rec.args[1])})",
+                "carries the content offset",
+            )
     np_ = find_node(f, lambda n: isinstance(n, ast.Call) and isinstance(n.func, ast.Attribute) and n.func.attr == "nested_parse" and len(n.args) >= 2)
     add("c04-block-quote-body-parsed-at-offset-zero", R2, mk, np_.args[1] if np_ is not None else None, "0", "carries the content offset")
     f = base.func("DocutilsRenderer.nested_render_text")
@@ -3716,6 +3778,16 @@ def mutants(corpus: Corpus):
         add("c04-start-line-takes-the-stop-index", R7, mk, idx_.slice if idx_ is not None else None, "1", "normalised")
         ln_ = next((x for x in ast.walk(st.value) if isinstance(x, ast.Call) and dotted(x.func) == "len"), None)
         add("c04-start-line-normalised-against-characters", R7, mk, ln_.args[0] if ln_ is not None else None, "file_content", "normalised")
+        # normalised against the length of the already sliced list (the slice moved into the definition of the lines local)
+        fl = find_stmt(f, lambda s: isinstance(s, ast.Assign) and unparse(s.targets[0]) == "file_lines" and isinstance(s.value, ast.Call))
+        jn = find_stmt(f, lambda s: isinstance(s, ast.Assign) and unparse(s.targets[0]) == "file_content" and "file_lines[" in unparse(s.value))
+        sub_ = next((x for x in ast.walk(jn.value) if isinstance(x, ast.Subscript) and isinstance(x.slice, ast.Slice)), None) if jn is not None else None
+        if fl is not None and sub_ is not None and fl.lineno < jn.lineno:
+            src2 = splice(mk.src, sub_, "file_lines")
+            src2 = splice(src2, fl.value, f"{unparse(fl.value)}[{unparse(sub_.slice)}]")
+            out.append(Mutant("c04-start-line-normalised-against-sliced-lines", R7, mk.rel, src2, expect="normalised"))
+        else:
+            out.append(("c04-start-line-normalised-against-sliced-lines", "lines local / joined slice of the include mock changed shape"))
     # the same defect with the lines of the file kept in a local first (the cut must still be seen)
     cut0 = find_stmt(f, lambda s: isinstance(s, ast.Assign) and unparse(s.targets[0]) == "file_content" and "startline:endline" in unparse(s.value).replace(" ", ""))
     sub0 = next((x for x in ast.walk(cut0.value) if isinstance(x, ast.Subscript) and isinstance(x.slice, ast.Slice)), None) if cut0 is not None else None
